@@ -62,6 +62,9 @@ def demo_flags(demo_src):
     for fl in re.findall(r'(?<![\w-])(-m(?:arch|tune|cpu)=[\w.-]+|-m(?:avx2?|avx512\w*|popcnt|pclmul|sse[\d.]+|bmi2?|aes|32))(?![\w-])', cmd):
         if fl not in extra and fl != '-m32':
             extra.append(fl)
+    for fl in re.findall(r'(?<![\w-])(-f(?:exec|input)-charset=[\w-]+)(?![\w-])', cmd):
+        if fl not in extra:
+            extra.append(fl)
     for fl in re.findall(r'(?<![\w-])(-DPOLYSEED_\w+)(?![\w-])', cmd):
         if fl not in extra and fl not in ('-DPOLYSEED_STATIC',):
             extra.append(fl)
